@@ -205,4 +205,123 @@ theorem partition_elems {α : Type} (d : DS) (hwf : d.WF) (xs : List α) (hlen :
   show (xs.drop (bound _ _ _ 0).toNat).take ((bound _ _ _ k).toNat - (bound _ _ _ 0).toNat) = _
   rw [hz, hl]
 
+
+theorem shardSize_nonneg (n : Int) (hn : 0 ≤ n) (k i : Nat) (hk : 1 ≤ k) : 0 ≤ shardSize n k i := by
+  unfold shardSize
+  have : 0 ≤ n / (k : Int) := Int.ediv_nonneg hn (by omega)
+  split <;> omega
+
+theorem len_wf {α : Type} (d : DS) (hwf : d.WF) (xs : List α) (hlen : xs.length = d.dataLen) :
+    d.len = .ok (d.elems xs).length := by
+  rw [elems_wf d hwf xs hlen]
+  obtain ⟨h0, h1, h2⟩ := hwf
+  unfold DS.len DS.rawLen
+  rw [if_neg (by omega)]
+  congr 1
+  simp only [List.length_take, List.length_drop]
+  omega
+
+theorem offset_elems {α : Type} (d : DS) (hwf : d.WF) (xs : List α) (hlen : xs.length = d.dataLen)
+    (i k : Nat) (hk : 1 ≤ k) (hi : i < k) (off : Nat)
+    (hoff : (off : Int) ≤ shardSize (d.end - d.start) k i) :
+    (d.shardCore i k off).elems xs = ((d.shardCore i k 0).elems xs).drop off := by
+  have hnn : 0 ≤ d.end - d.start := by obtain ⟨_, h1, _⟩ := hwf; omega
+  have w0 := shardCore_wf d hwf i k hk hi 0 (Int.le_refl _) (shardSize_nonneg _ hnn k i hk)
+  have w1 := shardCore_wf d hwf i k hk hi off (by omega) hoff
+  rw [elems_wf _ w0 xs (by rw [shardCore_dataLen]; exact hlen),
+      elems_wf _ w1 xs (by rw [shardCore_dataLen]; exact hlen)]
+  have hs0 := shardCore_start d i k hk 0
+  have hs1 := shardCore_start d i k hk off
+  have he0 := shardCore_end d i k hk 0
+  have he1 := shardCore_end d i k hk off
+  obtain ⟨a0, _, _⟩ := w0
+  rw [List.drop_take, List.drop_drop]
+  have e1 : (d.shardCore i k off).start.toNat = (d.shardCore i k 0).start.toNat + off := by omega
+  have e2 : (d.shardCore i k off).end = (d.shardCore i k 0).end := by rw [he0, he1]
+  rw [e1, e2]
+  congr 1
+  omega
+
+/-- Shards of shards: the leaves, in order, concatenate to the source and are well-formed. -/
+theorem allShards_spec {α : Type} (ks : List Nat) (hks : ∀ k ∈ ks, 1 ≤ k) (d : DS) (hwf : d.WF)
+    (xs : List α) (hlen : xs.length = d.dataLen) :
+    (d.allShards ks).flatMap (fun s => s.elems xs) = d.elems xs ∧
+    ∀ s ∈ d.allShards ks, s.WF ∧ s.dataLen = d.dataLen := by
+  induction ks generalizing d with
+  | nil => simp [DS.allShards, hwf]
+  | cons k ks ih =>
+    have hk : 1 ≤ k := hks k (by simp)
+    have hks' : ∀ k' ∈ ks, 1 ≤ k' := fun k' h => hks k' (by simp [h])
+    have hnn : 0 ≤ d.end - d.start := by obtain ⟨_, h1, _⟩ := hwf; omega
+    have hchild : ∀ i, i < k → (d.shardCore (i : Int) (k : Int) 0).WF := fun i hi =>
+      shardCore_wf d hwf i k hk hi 0 (Int.le_refl _) (shardSize_nonneg _ hnn k i hk)
+    constructor
+    · unfold DS.allShards
+      rw [List.flatMap_assoc]
+      rw [← partition_elems d hwf xs hlen k hk]
+      apply MlModel.Merged.flatMap_congr'
+      intro i hi
+      exact (ih hks' _ (hchild i (by simpa using hi)) (by rw [shardCore_dataLen]; exact hlen)).1
+    · intro s hs
+      unfold DS.allShards at hs
+      simp only [List.mem_flatMap, List.mem_range] at hs
+      obtain ⟨i, hi, hs⟩ := hs
+      have := (ih hks' _ (hchild i hi) (by rw [shardCore_dataLen]; exact hlen)).2 s hs
+      exact ⟨this.1, by rw [this.2, shardCore_dataLen]⟩
+
+/-! ### `from_state` -/
+
+/-- Same interval over the same data. -/
+def SameInterval (d d' : DS) : Prop := d'.start = d.start ∧ d'.end = d.end ∧ d'.dataLen = d.dataLen
+
+theorem shard_sameInterval (d d' : DS) (h : SameInterval d d') (i k off : Int) (s : DS)
+    (hs : d.shard i k off = .ok s) :
+    ∃ s', d'.shard i k off = .ok s' ∧ SameInterval s s' := by
+  obtain ⟨h1, h2, h3⟩ := h
+  unfold DS.shard at hs ⊢
+  split at hs
+  · simp at hs
+  · rename_i hk
+    simp only [Except.ok.injEq] at hs
+    subst hs
+    rw [if_neg hk]
+    refine ⟨_, rfl, ?_⟩
+    simp only [SameInterval, DS.shardCore, DS.end, Option.getD_some]
+    simp only [DS.end] at h2
+    rw [h1, h2, h3]
+    exact ⟨rfl, rfl, rfl⟩
+
+theorem fromState_root (n : Nat) : ∃ s', fromState n (DS.root n).state = .ok s' ∧ SameInterval (DS.root n) s' := by
+  refine ⟨_, rfl, ?_⟩
+  simp [SameInterval, DS.root, DS.shardCore, DS.end, shardLoop, shardStep, List.range_succ]
+
+theorem roundtrip_chain (n : Nat) (chain : List (Int × Int × Int)) (d d0 s : DS)
+    (h0 : fromState n d.state = .ok d0) (hi : SameInterval d d0) (hs : d.shardChain chain = .ok s) :
+    ∃ s', fromState n s.state = .ok s' ∧ SameInterval s s' := by
+  induction chain generalizing d d0 with
+  | nil =>
+    simp only [DS.shardChain, Except.ok.injEq] at hs
+    subst hs
+    exact ⟨d0, h0, hi⟩
+  | cons c rest ih =>
+    obtain ⟨i, k, off⟩ := c
+    simp only [DS.shardChain] at hs
+    cases h1 : d.shard i k off with
+    | error e => rw [h1] at hs; simp [bind, Except.bind] at hs
+    | ok s1 =>
+      rw [h1] at hs
+      simp only [bind, Except.bind] at hs
+      obtain ⟨s1', hs1', hi1⟩ := shard_sameInterval d d0 hi i k off s1 h1
+      have hstate : s1.state = .child i k off d.state := by
+        unfold DS.shard at h1
+        split at h1
+        · simp at h1
+        · simp only [Except.ok.injEq] at h1
+          subst h1; rfl
+      have hfs : fromState n s1.state = .ok s1' := by
+        rw [hstate]
+        simp only [fromState, h0, bind, Except.bind]
+        exact hs1'
+      exact ih s1 s1' hfs hi1 hs
+
 end MlModel.Shard
